@@ -15,12 +15,15 @@ META = {
         'CXSMILES radicals and fragment contraction)', 'chython/files/_mapping.py: postprocess_parsed_molecule',
     ],
     'bounds': {
-        'quick': 'whole tokenizer + parser on every string of length <= 3 with each character ranging over all of Unicode '
+        'quick': 'whole tokenizer + parser on every string of length <= 2, and of length 3 starting with C, c or "(", with each '
+                 'character ranging over all of Unicode '
                  '(characters inside brackets: every ASCII character individually, all non-ASCII characters as one class), '
                  'differential against an independent reader; bracket atoms assembled from solver-enumerated fields; ring '
                  'closure / branch / bond templates of length <= 8 with symbolic characters at the variable positions; '
-                 'reaction and CXSMILES framing with symbolic role counts',
-        'thorough': 'strings of length <= 4',
+                 'reaction and CXSMILES framing with symbolic role counts and radical indices; molecule-level double-bond geometry '
+                 'against the independent reader wherever both ends carry a mark',
+        'thorough': 'every string of length <= 3 (all first characters); role counts 0..3; length 4 over the whole alphabet did '
+                    'not finish in an hour on 16 cores and is not run',
     },
     'outside_claim': ['strings longer than the bound other than through the templates',
                       'regular-expression matching itself is executed concretely on realised bracket contents',
@@ -338,7 +341,7 @@ def finding_key(job, failure):
 def jobs(tier):
     T = tier == 'thorough'
     J = []
-    for n in ([1, 2, 3, 4] if T else [1, 2, 3]):
+    for n in [1, 2, 3]:      # length 4 over the whole alphabet did not finish in an hour on 16 cores: not run
         for sh in SHARDS:
             if n == 3 and not T and sh not in (['C'], ['c'], ['(']):
                 continue
